@@ -214,7 +214,7 @@ func compilePkgs(g *lookup, pkgs []*token, optimize bool) (ins []instruction, sl
 func declareFuncs(g *lookup, pkg *token) {
 	export := ""
 	for _, tok := range pkg.Tokens {
-		if tok.Symbol == "package" && len(tok.Tokens) > 0 && tok.Tokens[len(tok.Tokens)-1].Text != "" {
+		if tok != nil && tok.Symbol == "package" && len(tok.Tokens) > 0 && tok.Tokens[len(tok.Tokens)-1] != nil && tok.Tokens[len(tok.Tokens)-1].Text != "" {
 			export = tok.Tokens[len(tok.Tokens)-1].Text + "." // (what expPrefix puts in front of a package-level name)
 		}
 	}
@@ -222,11 +222,12 @@ func declareFuncs(g *lookup, pkg *token) {
 	declare = func(toks []*token) {
 		for _, tok := range toks {
 			switch {
-			case tok.Symbol == "function" && len(tok.Tokens) > 0:
+			case tok == nil || len(tok.Tokens) == 0 || tok.Tokens[0] == nil: // (a malformed tree: the compiler reports it)
+			case tok.Symbol == "function":
 				g.Index(export + tok.Tokens[0].Text)
-			case (tok.Symbol == "var" || tok.Symbol == ":=" || tok.Symbol == "const") && len(tok.Tokens) > 0:
+			case tok.Symbol == "var" || tok.Symbol == ":=" || tok.Symbol == "const":
 				for _, name := range tok.Tokens[0].Tokens { // (functions are compiled before the variables they may use)
-					if name.Text != "_" {
+					if name != nil && name.Symbol == "(name)" && name.Text != "_" {
 						g.Index(export + name.Text)
 					}
 				}
